@@ -585,10 +585,19 @@ func (s *Store[K, V]) removeEntry(entry *Entry[K, V], reason RemoveReason) {
 	_, index := s.index(entry.key)
 	shard := s.shards[index]
 
+	// expiredDeleted: an EXPIRED entry's map slot is removed below, in the same
+	// critical section as the deadline comparison
+	expiredDeleted := false
 	if reason == EXPIRED {
 		// entry might updated already
 		// update expire filed are protected by shard mutex
+		// Compare the deadline and take the entry out of the map under one hold of
+		// that mutex: a Set that extends the TTL in place between an unlocked
+		// comparison and the removal of the map slot returned true, and its value
+		// was then removed and reported as EXPIRED.
+		shard.mu.Lock()
 		if entry.expire.Load() > s.timerwheel.clock.NowNano() {
+			shard.mu.Unlock()
 			// The deadline was extended (under the shard lock) after the caller saw
 			// the entry as expired, so the entry stays. Take back the removed mark -
 			// otherwise every later event for the entry is ignored - and put the entry
@@ -597,6 +606,8 @@ func (s *Store[K, V]) removeEntry(entry *Entry[K, V], reason RemoveReason) {
 			s.timerwheel.schedule(entry)
 			return
 		}
+		expiredDeleted = shard.delete(entry)
+		shard.mu.Unlock()
 	}
 
 	if prev := entry.meta.prev; prev != nil {
@@ -626,9 +637,12 @@ func (s *Store[K, V]) removeEntry(entry *Entry[K, V], reason RemoveReason) {
 				}
 			}
 		}
-		shard.mu.Lock()
-		deleted := shard.delete(entry)
-		shard.mu.Unlock()
+		deleted := expiredDeleted
+		if reason != EXPIRED {
+			shard.mu.Lock()
+			deleted = shard.delete(entry)
+			shard.mu.Unlock()
+		}
 		if deleted {
 			k, v := entry.key, entry.value
 			if s.removalListener != nil {
